@@ -7,6 +7,10 @@ import (
 
 	"verif/internal/c01"
 	"verif/internal/c04"
+	"verif/internal/c06"
+	"verif/internal/c07"
+	"verif/internal/c08"
+	"verif/internal/c11"
 	"verif/internal/c15"
 	"verif/internal/c16"
 	"verif/internal/c17"
@@ -16,6 +20,10 @@ import (
 var checks = map[string]func(tier, replay string){
 	"C01": c01.Main,
 	"C04": c04.Main,
+	"C06": c06.Main,
+	"C07": c07.Main,
+	"C08": c08.Main,
+	"C11": c11.Main,
 	"C15": c15.Main,
 	"C16": c16.Main,
 	"C17": c17.Main,
